@@ -248,7 +248,7 @@ func (m *fStompSubscriberTransport) Subscribe(topic string, callback FAsyncCallb
 	m.isSubscribed = true
 	m.callback = callback
 	m.topic = destination
-	go m.processMessages(callback)
+	go m.processMessages(callback, sub, m.stopC, destination)
 	return nil
 }
 
@@ -283,16 +283,17 @@ func (m *fStompSubscriberTransport) Unsubscribe() error {
 }
 
 // processMessages call the given FAsyncCallback with messages from the
-// subscription channel.
-func (m *fStompSubscriberTransport) processMessages(callback FAsyncCallback) {
-	stopC := m.stopC
+// subscription channel. The subscription, its stop channel and its destination
+// are handed in: the fields of m belong to the latest Subscribe, which may be a
+// later one by the time this goroutine's callback returns.
+func (m *fStompSubscriberTransport) processMessages(callback FAsyncCallback, sub *stomp.Subscription, stopC <-chan bool, topic string) {
 	for {
 		select {
 		case <-stopC:
 			logger().Errorf("frugal: error processing stomp subscription messages, message received on stop channel")
 			return
-		case message, ok := <-m.sub.C:
-			logger().Debugf("frugal: received stomp message on topic '%s'", m.topic)
+		case message, ok := <-sub.C:
+			logger().Debugf("frugal: received stomp message on topic '%s'", topic)
 			if !ok {
 				logger().Errorf("frugal: error processing subscription messages, message channel closed")
 				return
@@ -310,7 +311,7 @@ func (m *fStompSubscriberTransport) processMessages(callback FAsyncCallback) {
 			}
 
 			go m.ackMessage(message)
-			logger().Debugf("frugal: finished processing stomp message from topic '%s'", m.topic)
+			logger().Debugf("frugal: finished processing stomp message from topic '%s'", topic)
 		}
 	}
 }
